@@ -117,3 +117,7 @@ Proof.
   destruct (gen_layout_slots tj Hin) as [Hnd Hlt].
   apply gather_scatter; assumption.
 Qed.
+
+From LJT Require Import model.LosslessLazy.
+Lemma gen_lazy_facts : gen_min_get_bits = Z.of_nat MIN_GET_BITS.
+Proof. reflexivity. Qed.
